@@ -90,6 +90,9 @@ def ct14Ops (cfg : CT14Cfg) : SchemeOps where
     pure [a, b]
 
 def anssOps (cfg : ANSSCfg) : SchemeOps where
+  hyps lv key db t absent := match key1 key with
+    | .ok K => ANSS16.hypsB cfg lv K db t absent
+    | .error _ => false
   keyGen t := do let (k, t') ← ANSS16.keyGen cfg t; pure ([k], t')
   setup lv key db t := do
     let K ← key1 key
